@@ -240,7 +240,12 @@ func (p *Proof) UnmarshalJSON(data []byte) error {
 	const fpSize = 32
 	proofBytes := make([]byte, 8*fpSize)
 	for i := 0; i < 8; i++ {
-		copy(proofBytes[i*fpSize:(i+1)*fpSize], proofInts[i].Bytes())
+		// right-align: a coordinate with leading zero bytes is shorter than fpSize
+		intBytes := proofInts[i].Bytes()
+		if len(intBytes) > fpSize {
+			return fmt.Errorf("proof element %d does not fit in %d bytes", i, fpSize)
+		}
+		copy(proofBytes[(i+1)*fpSize-len(intBytes):(i+1)*fpSize], intBytes)
 	}
 
 	p.Proof = groth16.NewProof(ecc.BN254)
